@@ -420,6 +420,15 @@ def coder_models():
          lambda n: (np.array([5, 2, 7, 3, 2, 9, 4, 6][:n], dtype=np.int32),), (0, 8)),
         ("bernoulli", M.Bernoulli(0.3, perfect=False), M.Bernoulli(perfect=False),
          lambda n: (np.array([0.3, 0.999, 1e-9, 0.5, 0.7, 0.01, 0.25, 0.6][:n]),), (0, 1)),
+        # families with ONE parameter fixed in the constructor and the other one delayed
+        ("laplace, location fixed", M.QuantizedLaplace(-3, 3, -0.5, 1.2), M.QuantizedLaplace(-3, 3, -0.5),
+         lambda n: (np.array([1.2, 0.1, 5.0, 0.7, 2.0, 0.3, 1.0, 9.0][:n]),), (-3, 3)),
+        ("cauchy, scale fixed", M.QuantizedCauchy(-3, 3, 0.0, 0.7), M.QuantizedCauchy(-3, 3, scale=0.7),
+         lambda n: (np.array([0.0, -2.5, 1.5, 0.2, -0.1, 3.0, -3.0, 0.9][:n]),), (-3, 3)),
+        ("gaussian, location fixed at zero", M.QuantizedGaussian(-3, 3, 0.0, 1.0), M.QuantizedGaussian(-3, 3, 0.0),
+         lambda n: (np.array([1.0, 0.1, 5.0, 0.7, 2.0, 0.3, 1.0, 9.0][:n]),), (-3, 3)),
+        ("binomial, n fixed", M.Binomial(4, 0.3), M.Binomial(4),
+         lambda n: (np.array([0.3, 0.0, 1.0, 0.5, 0.9, 0.01, 0.25, 0.6][:n]),), (0, 4)),
     ]
 
 
@@ -522,7 +531,7 @@ def run_chain(max_len):
     """C13 through the Python front end: decode from arbitrary data, export the remainders, re-import, encode back"""
     failures, n = [], 0
     counters = {"py_chain_cases": 0, "py_chain_out_of_data": 0, "py_chain_restored": 0, "py_chain_refused_constructions": 0}
-    models = coder_models()
+    models = coder_models()[:5] if max_len <= 3 else coder_models()
     def fail(what, detail):
         if len([f for f in failures if f["what"] == what]) < 3:
             failures.append({"what": what, "detail": detail})
@@ -808,6 +817,27 @@ def run_sizes(max_len):
                 a.clear(); r.clear()
                 if not a.is_empty() or not r.is_empty() or len(a.get_compressed()) or len(r.get_compressed()):
                     fail("Python front end | clear | coder not empty afterwards", f"message {msg}")
+        # coders loaded from words: raw binary data of every length (also ending in zero words) and compressed data
+        for w in word_strings(0, min(max_len, 3)):
+            n += 1; counters["py_size_nodes"] += 1
+            try:
+                c = ANS(w, True)
+                if c.num_valid_bits() != 32 * len(w):
+                    fail("Python front end | AnsCoder(words, seal=True).num_valid_bits | not the size of the data", f"words {[hex(int(x)) for x in w]}: {c.num_valid_bits()}")
+                full = c.get_compressed()
+                if c.num_words() != len(full) or c.num_bits() != 32 * len(full) or c.is_empty() != (len(full) == 0):
+                    fail("Python front end | AnsCoder(words, seal=True) | num_words / num_bits / is_empty disagree with get_compressed", f"words {[hex(int(x)) for x in w]}: {c.num_words()}, {c.num_bits()}, {c.is_empty()} vs {len(full)} words")
+                if len(c.get_compressed(unseal=True)) != len(w):
+                    fail("Python front end | AnsCoder(words, seal=True).get_compressed(unseal=True) | not as long as the data", f"words {[hex(int(x)) for x in w]}")
+                if len(w) and w[-1] != 0:
+                    c = ANS(w)
+                    if c.num_words() != len(w) or c.num_bits() != 32 * len(w) or c.is_empty() or not (32 * (len(w) - 1) < c.num_valid_bits() + 1 <= 32 * len(w)):
+                        fail("Python front end | AnsCoder(words) | num_words / num_bits / num_valid_bits / is_empty disagree with the words", f"words {[hex(int(x)) for x in w]}: {c.num_words()}, {c.num_bits()}, {c.num_valid_bits()}, {c.is_empty()}")
+                    d = RDEC(w)
+                    if d.maybe_exhausted() and len(w) > 2:
+                        fail("Python front end | RangeDecoder(words).maybe_exhausted | true although whole words are unread", f"words {[hex(int(x)) for x in w]}")
+            except BaseException as e:
+                fail("Python front end | size queries of a coder loaded from words | raises", f"words {[hex(int(x)) for x in w]}: {type(e).__name__}: {str(e)[:100]}")
     return n, failures, counters
 
 
@@ -868,6 +898,16 @@ def run_symbol(max_len):
                         st = S.StackCoder(); q = S.QueueEncoder()
                         for s_ in msg:
                             st.encode_symbol(s_, eb); q.encode_symbol(s_, eb)
+                        # twins that are inspected between the symbols (C08)
+                        st_i = S.StackCoder(); q_i = S.QueueEncoder()
+                        for s_ in msg:
+                            st_i.get_compressed_and_bitrate(); q_i.get_compressed_and_bitrate(); q_i.get_decoder()
+                            st_i.encode_symbol(s_, eb); q_i.encode_symbol(s_, eb)
+                            st_i.get_compressed_and_bitrate(); q_i.get_decoder(); q_i.get_compressed_and_bitrate()
+                        for nm, x, y in (("StackCoder", st_i, st), ("QueueEncoder", q_i, q)):
+                            (w1, b1), (w2, b2) = x.get_compressed_and_bitrate(), y.get_compressed_and_bitrate()
+                            if b1 != b2 or not np.array_equal(w1, w2):
+                                fail(f"Python front end | symbol.{nm} | inspections between symbols (get_compressed_and_bitrate, get_decoder) change the output", f"{wts}, {msg}: {list(w1)}/{b1} vs {list(w2)}/{b2}")
                         w, bits = st.get_compressed_and_bitrate()
                         if bits != sum(lens[s_] for s_ in msg):
                             fail("Python front end | StackCoder.get_compressed_and_bitrate | bit rate is not the sum of the codeword lengths", f"{wts}, {msg}: {bits}")
